@@ -47,7 +47,7 @@ def base_variant(variant):
     return variant.split('-')[0]
 
 
-def make_file(ctx, rows, variant):
+def make_file(ctx, rows, variant, n=1):
     """Write the test image.  File NAMES are re-used (two working names, rewritten for every case) so
     that anything the implementation remembers about a file name from an earlier call in this process
     (a cached header, shape, …) is stale for the next case: the result must depend on the file's
@@ -56,17 +56,34 @@ def make_file(ctx, rows, variant):
     from astropy.io import fits
     img = (np.arange(rows * COLS, dtype=np.float32).reshape(rows, COLS))
     base = base_variant(variant)
+    if variant.endswith('-nan'):
+        # blanked rows / pixels (NaN and inf): blocks of whole rows (so that some bands hold no finite pixel) and single pixels
+        # the block starts just after the last row of the first band whose last row is a decimation node (even row), so that
+        # for compressed inputs the band ends ON a finite node whose upper neighbour node is blank (the interpolator's
+        # 0*NaN then decides that row, and a band expanded on its own must agree with the full expansion)
+        ends = [rows * (i + 1) // n - 1 for i in range(max(1, n) - 1)]
+        even = [e for e in ends if e >= 0 and e % 2 == 0 and e + 2 < rows]
+        r0 = (even[0] + 1) if even else (rows * 3) // 7
+        r1 = min(rows, r0 + max(2, rows // 5))
+        img[r0:r1, :] = np.nan
+        img[rows - 1, 0] = np.inf
+        if rows > 6:
+            img[1, COLS - 1] = np.nan
     data = img
     if base == '3d':
         data = np.stack([img + 1000000, img])          # cube_index=1 is the plane under test
     elif base == '4d':
         data = np.stack([img + 1000000, img])[None]
     ext = variant in EXT_VARIANTS
+    if variant in ('bscale-i16', 'bscale-i32'):
+        # the standard use of BSCALE: integer raw values (BITPIX 16 / 32) scaled to physical units
+        data = (img % 30000).astype(np.int16 if variant == 'bscale-i16' else np.int32)
+        img = data.astype(np.float64)
     hdu = (fits.ImageHDU if ext else fits.PrimaryHDU)(data)
     for k, v in HEADER.items():
         hdu.header[k] = v
     if base == 'bscale':
-        hdu.header['BSCALE'] = 2.0     # written raw; load_image_band multiplies
+        hdu.header['BSCALE'] = 2.5 if variant in ('bscale-i16', 'bscale-i32') else 2.0     # written raw; load_image_band multiplies
     _file_counter[0] += 1
     path = os.path.join(ctx.tmpdir(), f'work{_file_counter[0] % 2}.fits')
     if ext:
@@ -80,7 +97,7 @@ def make_file(ctx, rows, variant):
         hdul = fits.HDUList([prim, hdu])
     else:
         hdul = fits.HDUList([hdu])
-    if variant == 'compressed':
+    if base == 'compressed':
         from AegeanTools import fits_tools
         hdul = fits_tools.compress(hdul, 2, None)
     hdul.writeto(path, overwrite=True, output_verify='silentfix')
@@ -92,19 +109,24 @@ def full_reference(path, variant, img):
     through the code under test), and its header (read with astropy)"""
     from astropy.io import fits
     from AegeanTools import fits_tools
-    if variant == 'compressed':
+    if base_variant(variant) == 'compressed':
         h = fits_tools.expand(path)
         return np.array(h[0].data), h[0].header
     hdr = fits.getheader(path, ext=1 if variant in EXT_VARIANTS else 0)
     if base_variant(variant) == 'bscale':
-        return img * 2.0, hdr
+        return img * (2.5 if variant in ('bscale-i16', 'bscale-i32') else 2.0), hdr
     return img, hdr
+
+
+def _quiet_expand_warnings():
+    import warnings as _w
+    _w.filterwarnings('ignore', message='invalid value encountered in multiply', category=RuntimeWarning, module='scipy')
 
 
 def load_all(ctx, rows, n, variant, cache):
     """call the implementation for every band; return list of per-band observations"""
     from AegeanTools import fits_tools
-    path, img = make_file(ctx, rows, variant)
+    path, img = make_file(ctx, rows, variant, n)
     full, fhdr = full_reference(path, variant, img)
     obs = []
     for i in range(n):
@@ -536,7 +558,7 @@ def fullfile_cases(ctx, count, seed=None):
                  sample_every=37)
 
 
-CORPUS = [(1, 49, '2d'), (5, 64, '2d'), (47, 3, 'compressed'), (7, 7, '2d'), (9, 4, 'bscale'), (100, 49, '2d'),
+CORPUS = [(9, 4, 'bscale-i16'), (7, 3, 'bscale-i32'), (18, 2, 'compressed-nan'), (18, 6, 'compressed-nan'), (12, 6, '2d-nan'), (3, 5, '2d-nan'), (1, 49, '2d'), (5, 64, '2d'), (47, 3, 'compressed'), (7, 7, '2d'), (9, 4, 'bscale'), (100, 49, '2d'),
           (12, 3, '2d'), (9, 3, '2d'), (12, 5, '2d'), (9, 2, '4d-ext'), (9, 2, '4d-extdecoy'), (7, 5, '3d-ext'),
           (6, 4, '2d-ext'), (8, 3, 'bscale-ext'), (7, 5, '3d'), (7, 9, '4d')]
 
@@ -547,24 +569,39 @@ def case_set(ctx, wide):
     if not wide:
         cases += [(rows, n, '2d') for rows in range(1, 25) for n in range(1, 25) if (rows + n) % 3 == ctx.seed % 3 or rows < 6]
         for _ in range(60):
-            cases.append((rng.randint(1, 400), rng.randint(1, 64), rng.choice(['2d', '3d', '4d', 'bscale', 'compressed', '2d-ext', '3d-ext', '4d-ext', '4d-extdecoy', 'bscale-ext'])))
+            cases.append((rng.randint(1, 400), rng.randint(1, 64), rng.choice(['2d', '3d', '4d', 'bscale', 'compressed', 'compressed-nan', '2d-nan', 'bscale-i16', 'bscale-i32', '2d-ext', '3d-ext', '4d-ext', '4d-extdecoy', 'bscale-ext'])))
         for v in ['3d', '4d', 'bscale', 'compressed', '2d-ext', '3d-ext', '4d-ext', '4d-extdecoy']:
             cases += [(rows, n, v) for rows, n in [(2, 2), (5, 3), (13, 5), (31, 7)]]
     else:
         cases += [(rows, n, '2d') for rows in range(1, 65) for n in range(1, 65)]
         for _ in range(600):
-            cases.append((rng.randint(1, 20000), rng.randint(1, 64), rng.choice(['2d', '2d', '3d', '4d', 'bscale', 'compressed', '2d-ext', '3d-ext', '4d-ext', '4d-extdecoy', 'bscale-ext'])))
+            cases.append((rng.randint(1, 20000), rng.randint(1, 64), rng.choice(['2d', '2d', '3d', '4d', 'bscale', 'compressed', 'compressed-nan', '2d-nan', 'bscale-i16', 'bscale-i32', '2d-ext', '3d-ext', '4d-ext', '4d-extdecoy', 'bscale-ext'])))
     # compressed needs >= 2 rows (compress() itself requires a 2-D image with >= 1 cell)
-    return [(r, n, v) if not (v == 'compressed' and r < 4) else (r + 4, n, v) for r, n, v in cases]
+    return [(r, n, v) if not (v.startswith('compressed') and r < 4) else (r + 4, n, v) for r, n, v in cases]
 
 
 def run(ctx):
     common.use_repo()
+    _quiet_expand_warnings()
     cases = case_set(ctx, wide=not ctx.quick)
     run_cases(ctx, cases)
     invalid_cases(ctx)
     full_cases(ctx, 120 if ctx.quick else 1500)
     fullfile_cases(ctx, 60 if ctx.quick else 600)
+    # strict slice: a caller that promotes RuntimeWarnings to errors (pytest -W error) must still get every band — including
+    # bands without rows or without a finite pixel.  (Not np.seterr(all='raise'), and no NaN-bearing compressed maps here:
+    # scipy's interpolator inside expand() itself computes 0*NaN and warns on the clean tree — C15's territory.)
+    import warnings as _w
+    n0 = len(ctx.failures)
+    with _w.catch_warnings():
+        _w.simplefilter('error', RuntimeWarning)
+        run_cases(ctx, [(12, 6, '2d-nan'), (3, 5, '2d-nan'), (3, 5, '2d'), (7, 9, '3d'), (9, 4, 'bscale'),
+                        (47, 3, 'compressed'), (6, 4, '2d-ext'), (5, 8, '4d')], check_wcs_every=3)
+    for f in ctx.failures[n0:]:
+        f['signature'] = dict(f.get('signature') or {}, strict_warnings=True)
+        if isinstance(f.get('case'), dict):
+            f['case']['strict_warnings'] = True
+    ctx.count('strict-warnings-slice', 8)
     # debug slice: the same corpus with the root and 'Aegean' loggers at DEBUG must behave identically
     import logging
     root, aeg = logging.getLogger(), logging.getLogger('Aegean')
@@ -613,4 +650,10 @@ def replay(ctx, rec):
     else:
         # re-create the state of the two working files: the cases that ran just before the failing one
         hist = [tuple(h) for h in c.get('history', [])]
-        run_cases(ctx, hist + [(c['rows'], c['n'], c.get('variant', '2d'))], check_wcs_every=1)
+        if c.get('strict_warnings'):
+            import warnings as _w
+            with _w.catch_warnings():
+                _w.simplefilter('error', RuntimeWarning)
+                run_cases(ctx, hist + [(c['rows'], c['n'], c.get('variant', '2d'))], check_wcs_every=1)
+        else:
+            run_cases(ctx, hist + [(c['rows'], c['n'], c.get('variant', '2d'))], check_wcs_every=1)
